@@ -12,7 +12,7 @@ PLANS = {
         "level_note": "trusted: reference join model, synctest quiescence on the go1.26.8 runtime, generated inputs are valid changelogs without late records",
         "parts": [{"check": "c19", "quick": 64000, "thorough": 2000000}],
         "rule": ("each run draws from its tape: join kind (inner/left/right/full), 0-2 key columns, per side a valid "
-                 "changelog (watermarked or batch, retractions, duplicates) and the full message-by-message interleaving "
+                 "changelog (watermarked or batch, retractions, duplicates, keys from {1..3, NULL}) and the full message-by-message interleaving "
                  "of the two sources including which closes first; a run is non-trivial if the two scripts hold >=2 "
                  "messages and >=3 scheduling decisions were made; distinct = distinct (scenario-shape hash, schedule hash) pairs, "
                  "shape = join kind, keys, per-side watermark mode and the +/-/w pattern of both scripts; schedule = the L/R/close sequence"),
@@ -28,10 +28,11 @@ PLANS = {
                        "generated tables with NULL and duplicate keys x input interleavings; final consolidated output compared with a reference SQL join"),
         "level_note": "trusted: reference nested-loop join with three-valued key equality, synctest quiescence; LOOKUP JOIN has no schedule dimension (sequential) and is counted separately in probes",
         "parts": [{"check": "c02", "quick": 40000, "thorough": 1000000}],
-        "rule": ("each run draws a join query shape, 2-3 tables (0..N rows, keys from {1,2,3,NULL}, duplicates likely) and the message interleaving of the table sources; "
+        "rule": ("each run draws a join query shape (optionally a cross-table equality in WHERE on top of ON), 2-3 tables (0..N rows, keys from {1,2,3,NULL}, duplicates likely; in a quarter of the runs streamed: "
+                 "event times and truthful watermarks), how the result is observed (collecting sink, or printed by `octosql -o <mode>` through RunE's own tail and the real printers, half of the runs) and the message interleaving of the table sources; "
                  "non-trivial = at least 2 input rows in total; distinct = distinct (query-shape hash, tables+schedule hash) pairs"),
         "components": {"real": ["sqlparser", "parser", "logical typecheck", "optimizer", "physical.Materialize", "nodes.StreamJoin/OuterJoin/LookupJoin/Filter/Map", "functions (=, <, >=, AND)"],
-                       "stub": ["table sources (sim database, scripted and gated)", "sink (collecting)", "cobra command, config file, printers (not run)"]},
+                       "stub": ["table sources (sim database, scripted and gated)", "sink (collecting) or captured stdout", "cobra command, config file, plugin discovery (not run)"]},
         "assumptions": ["reference nested-loop SQL join in /verif/sim/model.go", "testing/synctest quiescence (go1.26.8 runtime)"],
     },
     "C05": {
@@ -44,7 +45,7 @@ PLANS = {
         "parts": [{"check": "c05", "quick": 40000, "thorough": 1000000},
                   # the real binary (cobra, config, RunE as compiled, real csv/json files): scheduling is the OS's here - monitored, not scheduled
                   {"check": "c05cli", "kind": "proc", "script": "c05cli.py", "quick": 640, "thorough": 10000}],
-        "rule": ("each run draws a base query (single table, inner join, left/right/full outer join, GROUP BY with a counting trigger, DISTINCT, changelog table with retractions), a nesting "
+        "rule": ("each run draws a base query (single table, inner join, left/right/full outer join, GROUP BY with a counting trigger, DISTINCT, changelog table with retractions, LOOKUP JOIN over a LIMIT subquery), a nesting "
                  "(top level, subquery, subquery + outer LIMIT, subquery LIMIT + outer ORDER BY, WITH, ORDER BY only), 0-2 sort keys with directions, n from {0,1,2,3,4,6,9,100}, one of the five output modes, "
                  "tables and the interleaving of the sources; non-trivial = at least 2 input messages; distinct = distinct (shape tuple, tables+schedule) pairs"),
         "components": {"real": ["cmd/root.go RunE from sqlparser.Parse to sink.Run (build-time copy)", "parser", "typecheck", "optimizer", "physical.Materialize", "nodes.Limit/OrderSensitiveTransform/StreamJoin/OuterJoin/CustomTriggerGroupBy/Distinct",
@@ -81,14 +82,15 @@ PLANS = {
     "C14": {
         "level": "exploration",
         "technique": "deterministic simulation (weakest fit: sequential object; the simulated nondeterminism is the delivery order of additions and retractions): seeded prefix-valid histories, step-by-step refinement against a from-scratch aggregate",
-        "level_text": ("seeded exploration of prefix-valid add/retract histories over edge-heavy domains for every registered aggregate descriptor "
+        "level_text": ("seeded exploration of add/retract histories (prefix-valid, and arbitrary interleavings of the same operations) over edge-heavy domains for every registered aggregate descriptor "
                        "(count, sum, avg, min, max, array_agg and the _distinct variants x int/float/duration/time/any); after every step with a non-empty net multiset "
                        "Trigger() must equal the aggregate recomputed from scratch (float sums within eps*n*sum|x| of the history)"),
         "level_note": "trusted: from-scratch aggregate definitions in /verif/sim/c14.go; NaN excluded everywhere and -0.0 excluded from _distinct histories (ordering/hash agreement of those values is C09, not on trial here); float magnitudes kept below overflow",
         "parts": [{"check": "c14", "quick": 200000, "thorough": 6000000}],
-        "rule": "each run draws an aggregate descriptor and a history (<=10 steps quick, <=40 thorough; retractions only of present values); non-trivial = >=2 steps; distinct = distinct (aggregate+type, full history) pairs",
+        "rule": ("each run draws an aggregate descriptor and a history (<=10 steps quick, <=40 thorough): prefix-valid (retractions only of present values) or, in a quarter of the runs, the same additions and retractions in an arbitrary order "
+                 "(a retraction may precede its addition; the oracle is evaluated whenever the net multiset is a multiset and non-empty); a value once reported must not change afterwards; non-trivial = >=2 steps; distinct = distinct (aggregate+type, full history) pairs"),
         "components": {"real": ["every Prototype() in aggregates.Aggregates"], "stub": ["the group-by around the aggregate (histories are fed directly)"]},
-        "assumptions": ["histories never dip below zero multiplicity (what a group-by can receive given C15)"],
+        "assumptions": ["the oracle is evaluated only at points where no multiplicity is negative"],
     },
     "C17": {
         "level": "exploration",
@@ -100,7 +102,7 @@ PLANS = {
         "level_note": ("trusted: reference trigger model and per-key batch aggregate in /verif/sim/c17.go; the processing order behind the group-by's event-time buffer is taken from C18's buffer specification. "
                        "Deliberately not flagged: the end-of-stream flush of a counting-only group-by and redundant retract/re-emit of an unchanged result"),
         "parts": [{"check": "c17", "quick": 120000, "thorough": 4000000}],
-        "rule": "each run draws a trigger configuration and an event history (<=10 events quick, <=32 thorough; late keys included at object level); non-trivial = >=2 events; distinct = distinct (config+shape, full history) pairs",
+        "rule": "each run draws a trigger configuration and an event history (<=10 events quick, <=32 thorough; at object level late keys, and keys from {1,2,3,0,NULL}: two different keys with the same hash); non-trivial = >=2 events; distinct = distinct (config+shape, full history) pairs",
         "components": {"real": ["execution.CountingTrigger/WatermarkTrigger/EndOfStreamTrigger/MultiTrigger", "nodes.CustomTriggerGroupBy", "nodes.EventTimeBuffer", "aggregates count/sum"],
                        "stub": ["source (scripted)", "sink (collecting)"]},
         "assumptions": ["input changelogs are valid and carry no late records; a row's event time is its time column"],
@@ -112,7 +114,7 @@ PLANS = {
                        "x grouping with/without the time field x optimiser on/off, planned from SQL text by the real parser/typechecker/optimiser; consolidated output at end of stream must equal the batch grouping"),
         "level_note": "trusted: reference batch group-by (count/sum/min over non-NULL inputs, NULL for an all-NULL group); aggregates limited to count/sum/min so that the verdict is about triggers, not C14",
         "parts": [{"check": "c16", "quick": 60000, "thorough": 3000000}],
-        "rule": "each run draws a trigger configuration, key shape, optimiser flag and a valid changelog (<=8 steps quick, <=24 thorough); non-trivial = >=2 messages; distinct = distinct (config+shape, full script) pairs",
+        "rule": "each run draws a trigger configuration, key shape, optimiser flag and a valid changelog (<=8 steps quick, <=24 thorough; late insertions included); aggregates count/sum/min/array_agg; a part of the runs reads the result as printed by `octosql -o <mode>`; non-trivial = >=2 messages; distinct = distinct (config+shape, full script) pairs",
         "components": {"real": ["sqlparser", "parser (ParseTrigger)", "logical.GroupBy typecheck", "optimizer", "physical.Materialize", "nodes.SimpleGroupBy/CustomTriggerGroupBy/EventTimeBuffer/Map", "triggers", "aggregates count/sum/min"],
                        "stub": ["table source (sim database, scripted)", "sink (collecting)"]},
         "assumptions": ["input changelogs are valid, a record's event time equals its time column, no late records"],
@@ -124,7 +126,7 @@ PLANS = {
                        "the emitted sequence of records and watermarks must equal the one a reference generator emits step by step"),
         "level_note": "trusted: reference generator in /verif/sim/c20.go (rounding down = mathematical floor to a multiple of the resolution counted from the Unix epoch)",
         "parts": [{"check": "c20", "quick": 100000, "thorough": 4000000}],
-        "rule": "each run draws max_diff, resolution, epoch range and a time sequence (<=10 records quick, <=40 thorough); non-trivial = >=2 messages; distinct = distinct (config+shape, full input) pairs",
+        "rule": "each run draws max_diff, resolution, epoch range and a time sequence (<=10 records quick, <=40 thorough); in a third of the runs the same materialised node is run a second time and must emit the same sequence; non-trivial = >=2 messages; distinct = distinct (config+shape, full input) pairs",
         "components": {"real": ["sqlparser/parser/typecheck of the table valued function", "table_valued_functions.MaxDiffWatermark"], "stub": ["table source (scripted)", "sink (collecting)"]},
         "assumptions": ["times within the range representable as int64 nanoseconds"],
     },
@@ -136,7 +138,7 @@ PLANS = {
                        "watermarks pass unchanged in place; range: ascending, each integer once, also when a LIMIT stops it early (by-product: no schedule or clock dimension)"),
         "level_note": "trusted: synctest fake clock; only the default 1s poll interval is reachable in this snapshot (poll_interval is declared as a DESCRIPTOR and cannot be planned), so the interval is not a simulated configuration",
         "parts": [{"check": "c21", "quick": 30000, "thorough": 2000000}],
-        "rule": "each run draws one of tumble (window length, offset, changelog), range (start, end, limit) or poll (2-7 rounds of snapshots, stalls); non-trivial = >=2 messages/rounds; distinct = distinct (shape, content) pairs",
+        "rule": "each run draws one of tumble (window length, offset, changelog), range (start, end, limit; or run once per outer record as the joined side of a LOOKUP JOIN with bounds that depend on it) or poll (2-7 rounds of snapshots, stalls); non-trivial = >=2 messages/rounds; distinct = distinct (shape, content) pairs",
         "components": {"real": ["table_valued_functions.Tumble/Range/Poll", "planner", "nodes.Limit"], "stub": ["table sources (scripted snapshots)", "sink", "wall clock (synctest fake clock)"]},
         "assumptions": ["window lengths divide a day, so alignment does not depend on the time origin"],
     },
@@ -148,7 +150,7 @@ PLANS = {
                        "at or above its time, rest at end of stream, zero-time records straight through)"),
         "level_note": "trusted: the monitors and the buffer release model in /verif/sim/c18.go; inputs carry no late records by construction",
         "parts": [{"check": "c18", "quick": 60000, "thorough": 2000000}],
-        "rule": "each run draws a scenario family (buffer / single operator / join under schedule / SQL group-by / SQL pipeline) and its history; non-trivial = >=2 input messages; distinct = distinct (shape, history+schedule) pairs",
+        "rule": "each run draws a scenario family (buffer / single operator, incl. a group-by keyed without the time column over retractions that carry their own later event times / join under schedule / SQL group-by / SQL pipeline / poll) and its history; non-trivial = >=2 input messages; distinct = distinct (shape, history+schedule) pairs",
         "components": {"real": ["nodes.EventTimeBuffer", "every execution node of C15", "StreamJoin/OuterJoin", "max_diff_watermark", "tumble", "CustomTriggerGroupBy", "planner"], "stub": ["sources (scripted, gated)", "sink"]},
         "assumptions": ["a row's event time equals its time column where it has one"],
     },
@@ -160,7 +162,7 @@ PLANS = {
         "level_note": ("trusted: independent decoders (encoding/json, generator-side row lists); all rows of a file conform to one schema (schema inference is C24). Not covered: parquet (opens the file itself through a third-party ReadAt reader: no seam, no scheduling dimension); "
                        "CRLF handling of the default newline separator (bufio.ScanLines drops a trailing \\r by design)"),
         "parts": [{"check": "c23", "quick": 12000, "thorough": 300000}, {"check": "c23stdin", "kind": "proc", "script": "c23stdin.py", "quick": 320, "thorough": 8000}],
-        "rule": ("each run draws a source kind, a file, knobs (workers, buffer size, chunk pattern) and for JSON the release order of every gated hand-off; non-trivial = >=2 rows; "
+        "rule": ("each run draws a source kind (json, csv/tsv with or without header line, lines), a file, knobs (workers, buffer size, chunk pattern) and for JSON the release order of every gated hand-off; stdin: chunked pipe, the table referenced once or twice; non-trivial = >=2 rows; "
                  "distinct = distinct (kind+size+knobs, content/schedule) pairs"),
         "components": {"real": ["datasources/json (Creator, DatasourceExecuting, worker pool via build overlay)", "datasources/csv", "datasources/lines", "execution/files.OpenLocalFile", "stdin preview/replay in the real octosql binary"],
                        "stub": ["disk (reads served by the simulated disk over the real file)", "sink"]},
@@ -175,7 +177,8 @@ PLANS = {
         "level_note": "trusted: the fault-free twin run of the same code as reference for complete output; 'must consume' is decided per shape (everything except LIMIT 2 reads its inputs to the end)",
         "parts": [{"check": "c06", "quick": 8000, "thorough": 100000, "env": {"VERIF_SHRINK_BUDGET": "120"}},
                   {"check": "c06cli", "kind": "proc", "script": "c06cli.py", "quick": 480, "thorough": 6000}],
-        "rule": ("each run draws source kind (json/csv/lines), one of 11 query shapes (plain, WHERE, DISTINCT, ORDER BY, GROUP BY, JOIN, IN-subquery, scalar subquery, LIMIT small/large, ORDER BY+LIMIT), "
+        "rule": ("each run draws source kind (json/csv/lines), one of 18 query shapes (plain, WHERE, DISTINCT, ORDER BY, GROUP BY, JOIN, LEFT JOIN, LOOKUP JOIN, IN-subquery, scalar subquery, LIMIT small/large, ORDER BY+LIMIT, COUNT(*), "
+                 "failing expression above a LIMIT subquery / above a GROUP BY subquery / as ORDER BY key, max_diff_watermark -> GROUP BY .. TRIGGER ON WATERMARK with exactly one failing row), "
                  "fault kind and position, faulted table (main or joined/sub), optimiser flag, worker count and line limit; distinct = distinct (shape tuple, position/knobs) pairs"),
         "components": {"real": ["planner", "datasources json/csv/lines", "execution nodes incl. Distinct/OrderSensitiveTransform/Limit/joins", "query expressions (subqueries)", "functions.panic"],
                        "stub": ["disk (simulated over real files)", "sink"]},
@@ -196,7 +199,9 @@ PLANS = {
                   # LIMIT and malformed rows; the operating system schedules (monitored, not scheduled), up to 3 executions per scenario
                   {"check": "c29cli", "kind": "proc", "script": "c29cli.py", "race_binary": True, "workers": 12, "quick": 48, "thorough": 1500, "env": {"VERIF_SHRINK_BUDGET": "0"}},
                   ],
-        "rule": "each run draws a scenario family and its workload, knobs and complete gate release order; non-trivial = >=2 input rows/messages; distinct = distinct (shape, schedule) pairs",
+        "rule": ("each run draws a scenario family (stream/outer join; SQL join; JSON file; injected fault; JSON x JSON join with pattern filters, LIMIT, faults, stalling sink; big JSON file (up to 20 000 lines) under LOOKUP JOIN / LIMIT / join + LIMIT; "
+                 "join stopped early with 10 000+ rows outstanding; the C05 LIMIT/ORDER BY scenarios through the real printers) and its workload, knobs and complete gate release order; process tier: race-built real binary, up to 3 executions per scenario; "
+                 "non-trivial = >=2 input rows/messages; distinct = distinct (shape, schedule) pairs"),
         "components": {"real": ["nodes.StreamJoin/OuterJoin input goroutines", "datasources/json reader, worker pool (overlay constructor), consumer", "functions regexp/LIKE caches (ristretto)", "planner", "Limit", "files.OpenLocalFile"],
                        "stub": ["sim tables / simulated disk", "sink (optionally stalling)"]},
         "assumptions": ["runtime differences between go1.26.8 (simulator) and the shipped toolchain are out of scope"],
@@ -205,7 +210,7 @@ PLANS = {
         "level": "fault_enumeration",
         "engine": "octoproc",
         "technique": "deterministic simulation with crash injection at the process tier: real octosql binary, scratch HOME as durable disk, seeded crash point x mode (SIGKILL at a filesystem step, or kernel-made torn write at byte k via RLIMIT_FSIZE), optional second crash during the retry, then fault-free recovery invocations through the real plugin path",
-        "level_text": ("seeded sampling (thorough: plus systematic enumeration) of initial install state x configuration x operation (install latest / pinned / same version again / from config / repository add) x crash point x crash mode x torn-write length; "
+        "level_text": ("seeded sampling (plus systematic enumeration: a core of it in the quick tier, all of it in the thorough tier) of initial install state x configuration x operation (install latest / pinned / same version again / from config / repository add / first install of another plugin) x crash point x crash mode x torn-write length; "
                        "after the last crash: octosql must still start, every database that resolved before must still run and answer with the previous or the new plugin version (the new one if the operation completed), "
                        "and `octosql plugin install` must bring every configured database to a runnable version"),
         "level_note": "trusted: kernel RLIMIT_FSIZE/SIGXFSZ semantics for torn writes, SIGKILL for crashes (process-kill model: the page cache survives; power-loss reordering of unsynced writes is not modelled); the HTTP transport is a file-serving stub (hook H5)",
